@@ -25,7 +25,7 @@ Bad(e) ==
          \cup { c \in {"VectorIsEigenvector"} : e.hermitian_gap /\ e.resid_lg > Max2(e.bound_lg + ResSlack, FloorLg) }
          \cup { c \in {"Finite"} : ~e.finite }
     [] e.ev = "NonHerm" ->
-         { c \in {"UnitNorm"} : e.unit_units > UnitBound }
+         { c \in {"UnitNormAdjointVariant"} : e.unit_units > UnitBound }
          \cup { c \in {"RealEigenvalueForHermitian"} : e.hermitian /\ ~e.eig_real }
          \cup { c \in {"ShapeOfVector"} : ~e.shape_ok }
          \cup { c \in {"M:EigenvalueIndependentOfReturnVector"} : ~e.novec_same }
